@@ -252,6 +252,20 @@ def rule_subq1d(P) -> RuleResult:
     call = ci.methods.get('__call__')
     if call is None:
         raise AnalysisError('anchor vanished: EvalConstantSubquery1D.__call__')
+    # the node keeps the compiled subquery it was given, as it is: it runs as written (its own DISTINCT / LIMIT / ORDER BY)
+    init = ci.methods.get('__init__')
+    if init is None:
+        raise AnalysisError('anchor vanished: EvalConstantSubquery1D.__init__')
+    SQ = Sym('COMPILED_SUBQUERY')
+    for p in Engine(P).paths(init, {'self': Sym('SELF'), init.params[1]: SQ}):
+        kept = [v for k, v in p.heap.items() if isinstance(k, T) and k.op == 'attr' and k.args[0] == Sym('SELF') and (v == SQ or (isinstance(v, T) and symex.contains(v, SQ)))]
+        writes = [e for e in p.events if e[0] in ('store', 'aug') and isinstance(e[1], T) and symex.contains(e[1].args[0], SQ)]
+        if kept != [SQ] or writes:
+            res.fail(ci.fq + '.__init__', 'subq1d:subquery', f'the IN-subquery node must keep the compiled subquery unchanged; it keeps '
+                     f'`{show(kept[0])[:100] if kept else "nothing"}`' + (f' and writes `{show(writes[0][1])}`' if writes else '')
+                     + ': a subquery with a LIMIT and duplicates no longer yields the values it yields on its own', loc(init))
+        else:
+            res.ok({'node': ci.name, 'keeps': 'the compiled subquery as given'})
     S = Sym('SELF')
     marker = T('global', ('MARKER',))
     n0 = len(res.findings)
